@@ -29,7 +29,36 @@ def make_schema():
     s.rels['R2'] = R.Rel('R2', 'simple', 'A', 'B')
     s.rels['R3'] = R.Rel('R3', 'simple', 'A', 'A', part_phrase='leads', form_phrase='follows')
     s.rels['R4'] = R.Rel('R4', 'linked', 'A', 'B', 'L', part_many=True, form_many=True)
+    for h in HELPERS:
+        c = R.Callable_(h['kind'], h['name'], [(n, t) for n, t in h['params']], h['ret'], h['body'], h['owner'], pure=False)
+        if h['kind'] == 'function':
+            s.functions[h['name']] = c
+        elif h['kind'] == 'bridge':
+            s.bridges[(h['owner'], h['name'])] = c
+        else:
+            s.operations[(h['owner'], h['name'])] = c
     return s
+
+
+# Callable elements of the model whose invocation is *observable*: every invocation leaves a trace in the population (a new
+# B whose n is the tag passed by the caller - creation order = invocation order; the instance operation adds the tag to
+# self.i) and delivers the value passed in.  C04's own programs never invoke them (invocations belong to C15); C08 uses them
+# as operands of and / or / not, in conditions, where clauses and arguments.
+def _trace_body(result):
+    return [['create', 'b9', 'B'], ['assign', ['attr', ['var', 'b9'], 'n'], ['param', 'n']]] + ([['return', result]] if result else [])
+
+
+_CN = [['c', 'boolean'], ['n', 'integer']]
+HELPERS = [
+    dict(kind='function', name='fb', owner=None, params=_CN, ret='bool', body=_trace_body(['param', 'c'])),
+    dict(kind='function', name='fi', owner=None, params=[['n', 'integer']], ret='int', body=_trace_body(['param', 'n'])),
+    dict(kind='function', name='fv', owner=None, params=[['n', 'integer']], ret=None, body=_trace_body(None)),
+    dict(kind='bridge', name='bb', owner='EX', params=_CN, ret='bool', body=_trace_body(['param', 'c'])),
+    dict(kind='cop', name='cb', owner='A', params=_CN, ret='bool', body=_trace_body(['param', 'c'])),
+    dict(kind='iop', name='ib', owner='A', params=_CN, ret='bool',
+         body=[['assign', ['attr', ['self'], 'i'], ['bin', '+', ['attr', ['self'], 'i'], ['param', 'n']]], ['return', ['param', 'c']]]),
+]
+_RET_NAME = {'bool': 'boolean', 'int': 'integer', 'str': 'string', None: 'void'}
 
 
 def make_model(functions=()):
@@ -43,6 +72,17 @@ def make_model(functions=()):
     m.linked(4, 'A', 'a_id', 'B', 'b_id', 'L', 'a_id', 'b_id')
     for name, body, params, ret in functions:
         m.function(name, body, params, ret)
+    bridges = {}
+    for h in HELPERS:
+        params, ret, text = tuple((n, t) for n, t in h['params']), _RET_NAME[h['ret']], R.render(h['body'])
+        if h['kind'] == 'function':
+            m.function(h['name'], text, params, ret)
+        elif h['kind'] == 'bridge':
+            bridges.setdefault(h['owner'], []).append((h['name'], text, params, ret))
+        else:
+            m.operation(h['owner'], h['name'], text, params, ret, instance_based=(h['kind'] == 'iop'))
+    for ee in sorted(bridges):
+        m.external_entity(ee, bridges[ee])
     return m
 
 
@@ -292,11 +332,11 @@ def warm_up():
         _proc['warm'] = True
 
 
-def run_reference(tree, pop_name, max_steps=600, params=None):
+def run_reference(tree, pop_name, max_steps=600, params=None, logic='strict', where_effects=False):
     """(result, snapshot) of the reference evaluation; raises OutOfDomain."""
     sch = schema()
     w = populate_ref(sch, population(pop_name))
-    m = R.Machine(w, max_steps=max_steps)
+    m = R.Machine(w, max_steps=max_steps, logic=logic, where_effects=where_effects)
     try:
         result = with_timeout(lambda: m.run_body(tree, params), 10.0)
     except Timeout:
@@ -472,8 +512,30 @@ class Gen(object):
             out += [['attr', ['selected'], a] for a in self.attrs_of(sel, ty)]
         return out
 
+    def helper_call(self, ty, depth, sel):
+        """An invocation of one of HELPERS (observable: it leaves a trace tagged with a fresh number) of type int / bool."""
+        self.tag = getattr(self, 'tag', 0) + 1
+        n = ['int', self.tag]
+        if ty == 'int':
+            return ['fcall', 'fi', [['n', n]]]
+        c = self.expr('bool', depth - 1, sel)
+        args = [['c', c if c is not None else ['bool', True]], ['n', n]]
+        if self.ch.chance(0.5):
+            args.reverse()
+        kind = self.ch.pick(['function', 'bridge', 'cop'] + (['iop'] if self.visible('A') else []))
+        if kind == 'function':
+            return ['fcall', 'fb', args]
+        if kind == 'bridge':
+            return ['bcall', 'EX', 'bb', args]
+        if kind == 'cop':
+            return ['ccall', 'A', 'cb', args]
+        return ['icall', ['var', self.ch.pick(self.visible('A'))], 'ib', args]
+
     def expr(self, ty, depth, sel=None):
         """A type-correct expression of type ty, or None if the scope offers nothing of that type."""
+        rate = self.p.get('helper_calls', 0)       # only C08 asks for invocations (profile helper_calls > 0)
+        if rate and depth > 0 and ty in ('int', 'bool') and self.ch.chance(rate):
+            return self.helper_call(ty, depth, sel)
         atoms = self.atoms(ty, sel)
         forms = []
         if atoms:
@@ -785,3 +847,169 @@ FULL_PRELUDE = [['selfrom', 'any', 'a1', 'A', None], ['selfrom', 'any', 'b1', 'B
                 ['selfrom', 'many', 'as1', 'A', None], ['create', 'a2', 'A'], ['create', 'b2', 'B'], ['create', 'l1', 'L'],
                 ['assign', ['var', 'x'], ['int', 1]]]
 FULL_PRELUDE_SCOPE = dict(a1='A', b1='B', l2='L', as1='A*', a2='A', b2='B', l1='L', x='int')
+
+
+# ------------------------------------------------------------------------------------------------- if / elif / else ladders
+# `if g0 B0 elif g1 B1 ... elif gk Bk [else E]` with k = 2..3 elif clauses.  The language rule (property text: if/elif/else):
+# exactly the first clause whose guard holds is executed, the else block when none holds.  Every clause leaves its own mark
+# (m = m * 10 + clause number) plus an effect of the chosen body style, so that running a wrong clause, a second clause, or
+# the else block in addition is visible in the returned value and in the final population.
+LADDER_BASIC_GUARDS = ('literal', 'compare', 'boolvar', 'attr', 'handle')
+LADDER_GUARDS = LADDER_BASIC_GUARDS + ('mixed0', 'mixed1', 'mixed2')
+LADDER_BODIES = ('marker', 'attribute', 'create', 'link', 'flip', 'control')
+LADDER_CONTEXTS = ('top', 'while', 'for', 'then-block', 'else-block', 'elif-block')
+LADDER_LOOPS = ('for', 'while')
+_M, _X5 = ['var', 'm'], ['var', 'x']
+_A1, _A0 = ['var', 'a1'], ['var', 'a0']
+# on the population `rich`: a1 = A[0] (i=1, s='x', b=true), a0 empty, as1 = the 3 instances of A (i = 1, 2, 3), x = 5
+LADDER_PRELUDE = [['selfrom', 'any', 'a1', 'A', None], ['selfrom', 'any', 'b1', 'B', None],
+                  ['selfrom', 'any', 'a0', 'A', ['bin', '>', ['attr', ['selected'], 'i'], ['int', 5]]],
+                  ['selfrom', 'many', 'as1', 'A', None], ['create', 'a2', 'A'], ['create', 'b2', 'B'],
+                  ['assign', _X5, ['int', 5]], ['assign', _M, ['int', 0]]]
+
+
+def _guard_style(style, j):
+    return LADDER_BASIC_GUARDS[(j + int(style[5:])) % len(LADDER_BASIC_GUARDS)] if style.startswith('mixed') else style
+
+
+def _boolvar_value(j, truth):
+    """Value of g<j> that makes the guard of clause j (g<j> for even j, not g<j> for odd j) evaluate to `truth`."""
+    return truth if j % 2 == 0 else not truth
+
+
+def ladder_guard(style, j, truth):
+    """Guard of clause j (0 = the if) that evaluates to `truth` after LADDER_PRELUDE on the population rich."""
+    style = _guard_style(style, j)
+    if style == 'literal':
+        return ['bool', truth]
+    if style == 'compare':          # overlapping conditions on one variable (x = 5)
+        if j % 2 == 0:
+            return ['bin', '>', _X5, ['int', 4 - j if truth else 5 + j]]
+        return ['bin', '<=', _X5, ['int', 5 + j if truth else 4 - j]]
+    if style == 'boolvar':
+        g = ['var', 'g%d' % j]
+        return g if j % 2 == 0 else ['un', 'not', g]
+    if style == 'attr':
+        if j % 3 == 0:
+            return ['bin', '==', ['attr', _A1, 's'], ['str', 'x' if truth else 'y']]
+        if j % 3 == 1:
+            return ['attr', _A1, 'b'] if truth else ['un', 'not', ['attr', _A1, 'b']]
+        return ['bin', '<' if truth else '>', ['attr', _A1, 'i'], ['int', 2 if truth else 1]]
+    if style == 'handle':
+        if j % 2 == 0:
+            return ['un', 'not_empty' if truth else 'empty', _A1]
+        return ['un', 'empty' if truth else 'not_empty', _A0]
+    raise KeyError(style)
+
+
+def ladder_body(style, j, nclauses, in_loop):
+    """Block of clause j (else block: j = nclauses): its mark + an effect on the population / the later guards / control."""
+    out = [['assign', _M, ['bin', '+', ['bin', '*', _M, ['int', 10]], ['int', j + 1]]]]
+    if style == 'attribute':
+        out.append(['assign', ['attr', ['var', 'b1'], 'n'], ['bin', '+', ['bin', '*', ['attr', ['var', 'b1'], 'n'], ['int', 10]], ['int', j + 1]]])
+    elif style == 'create':
+        out += [['create', 'b3', 'B'], ['assign', ['attr', ['var', 'b3'], 'n'], ['int', 500 + j]]]
+    elif style == 'link':
+        if j % 2 == 0:
+            out += [['create', 'b3', 'B'], ['relate', 'a2', 'b3', 'R1', None, None]]
+        else:
+            out += [['create', 'b3', 'B'], ['create', 'l3', 'L'], ['relate', 'b3', 'a2', 'R4', None, 'l3']]
+    elif style == 'flip':           # an earlier clause makes the guards of all later clauses hold
+        out += [['assign', ['var', 'g%d' % l], ['bool', _boolvar_value(l, True)]] for l in range(j + 1, nclauses)]
+    elif style == 'control':
+        if in_loop:
+            out.append(['break'] if j % 2 == 0 else ['continue'])
+        else:
+            out.append(['stop'] if j % 2 == 0 else ['return', _M])
+    elif style != 'marker':
+        raise KeyError(style)
+    return out
+
+
+def _in_context(ladder, context):
+    """Statements that execute the ladder in the given context."""
+    if context == 'top':
+        return [ladder]
+    if context == 'while':
+        c = ['var', 'c']
+        return [['assign', c, ['int', 0]],
+                ['while', ['bin', '<', c, ['int', 3]], [['assign', c, ['bin', '+', c, ['int', 1]]], ladder]]]
+    if context == 'for':
+        return [['for', 'e1', 'as1', [ladder]]]
+    mark = lambda n: ['assign', _M, ['bin', '+', ['bin', '*', _M, ['int', 10]], ['int', n]]]
+    if context == 'then-block':
+        return [['if', ['bin', '==', _X5, ['int', 5]], [ladder, mark(8)], [], [mark(9)]]]
+    if context == 'else-block':
+        return [['if', ['bin', '!=', _X5, ['int', 5]], [mark(9)], [], [mark(8), ladder]]]
+    if context == 'elif-block':     # the enclosing statement is a ladder itself: two elif guards hold, only the first block runs
+        return [['if', ['bool', False], [mark(9)], [[['bin', '==', _X5, ['int', 5]], [ladder, mark(8)]], [['bool', True], [mark(7)]]], [mark(6)]]]
+    raise KeyError(context)
+
+
+def ladder_program(truths, has_else, guard_style, body_style, context):
+    """One program around a ladder whose guards evaluate to `truths` (list of 3..4 booleans) when it is reached first."""
+    n = len(truths)
+    if body_style == 'flip' and not guard_style.startswith('mixed'):
+        guard_style = 'boolvar'     # flipping only matters for guards that read the variables g<j>
+    in_loop = context in LADDER_LOOPS
+    pre = list(LADDER_PRELUDE)
+    pre += [['assign', ['var', 'g%d' % j], ['bool', _boolvar_value(j, t)]] for j, t in enumerate(truths)
+            if _guard_style(guard_style, j) == 'boolvar' or body_style == 'flip']
+    ladder = ['if', ladder_guard(guard_style, 0, truths[0]), ladder_body(body_style, 0, n, in_loop),
+              [[ladder_guard(guard_style, j, truths[j]), ladder_body(body_style, j, n, in_loop)] for j in range(1, n)],
+              ladder_body(body_style, n, n, in_loop) if has_else else None]
+    return pre + _in_context(ladder, context) + [['return', _M]]
+
+
+CLASSIFY_FORMS = [['>=', 1], ['>=', 2], ['>=', 3], ['>=', 4], ['==', 1], ['==', 2], ['==', 3]]
+
+
+def classify_program(forms, has_else, body_style, loop):
+    """A ladder inside a loop whose guards compare the loop value (1, 2, 3) with constants: the truth assignment changes
+    from iteration to iteration (forms: one [operator, constant] per clause)."""
+    n = len(forms)
+    if body_style == 'flip':
+        body_style = 'marker'
+    value = ['attr', ['var', 'e1'], 'i'] if loop == 'for' else ['var', 'c']
+    ladder = ['if', ['bin', forms[0][0], value, ['int', forms[0][1]]], ladder_body(body_style, 0, n, True),
+              [[['bin', forms[j][0], value, ['int', forms[j][1]]], ladder_body(body_style, j, n, True)] for j in range(1, n)],
+              ladder_body(body_style, n, n, True) if has_else else None]
+    return list(LADDER_PRELUDE) + _in_context(ladder, loop) + [['return', _M]]
+
+
+def ladder_shapes():
+    """(truth assignment, else present) for 2 and 3 elif clauses: all of them."""
+    import itertools
+    for k in (2, 3):
+        for truths in itertools.product([False, True], repeat=k + 1):
+            for has_else in (False, True):
+                yield list(truths), has_else
+
+
+def ladder_programs(quick):
+    """Deterministic list of (description, tree).  quick: every shape x body style x context (guard styles rotating) and the
+    classification loops over the 4 `>=` forms; thorough: the full product with all 8 guard styles and all 7 forms."""
+    import itertools
+    out = []
+    n = 0
+    for body in LADDER_BODIES:                  # all 48 shapes of one body style / context first: a cut-off run still saw every shape
+        for context in LADDER_CONTEXTS:
+            for truths, has_else in ladder_shapes():
+                styles = [LADDER_GUARDS[n % len(LADDER_GUARDS)]] if quick else LADDER_GUARDS
+                n += 5                          # 5 and 8 are coprime: the guard styles rotate through all 8
+                for gs in styles:
+                    out.append((dict(ladder=truths, has_else=has_else, guards=gs, body=body, context=context),
+                                ladder_program(truths, has_else, gs, body, context)))
+    forms = CLASSIFY_FORMS[:4] if quick else CLASSIFY_FORMS
+    bodies = [b for b in LADDER_BODIES if b != 'flip']
+    for k in (2, 3):
+        for i, fs in enumerate(itertools.product(forms, repeat=k + 1)):
+            if quick and k == 3 and i % 4 != (i // 4) % 4:      # a quarter of the 256 tuples
+                continue
+            for has_else in (False, True):
+                for loop in LADDER_LOOPS:
+                    body = bodies[n % len(bodies)]
+                    n += 1
+                    out.append((dict(classify=[list(f) for f in fs], has_else=has_else, body=body, loop=loop),
+                                classify_program([list(f) for f in fs], has_else, body, loop)))
+    return out
